@@ -114,17 +114,21 @@ def _solver_ok(M, nvals=None):
     n_expect = len(M) if nvals is None else nvals
     if len(lv) != n_expect or len(rv) != n_expect:
         return False, 'count'
-    # the returned values must be the n_expect LARGEST eigenvalues: independent dense reference, compared as sorted lists
-    ref = np.linalg.eigvals(M)
-
-    def srt(vals):
-        c = np.asarray(vals, dtype=complex)
-        return sorted(((round(float(z.real), 7), abs(float(z.imag))) for z in c), reverse=True)
-    top = srt(ref)[:n_expect]
-    tol = 1e-6 * scale
+    # the returned values must be the n_expect LARGEST eigenvalues: independent dense reference. Compared as multisets with a
+    # tolerance that covers defective eigenvalues (a k-fold defective eigenvalue is only determined to eps^(1/k), ~1e-3 for k = 5):
+    # every returned value matches an unused reference value, and no unmatched reference value lies clearly above the returned ones
+    ref = [complex(z) for z in np.linalg.eigvals(M)]
+    tol = 2e-3 * scale
     for vals in (lv, rv):
-        got = srt(vals)
-        if any(abs(a[0] - b[0]) > tol or abs(a[1] - b[1]) > tol for a, b in zip(got, top)):
+        got = [complex(z) for z in np.asarray(vals, dtype=complex)]
+        used = [False] * len(ref)
+        for z in got:
+            hit = [i for i, w in enumerate(ref) if not used[i] and abs(z - w) <= tol]
+            if not hit:
+                return False, 'not eigenvalues of the matrix'
+            used[min(hit, key=lambda i: abs(z - ref[i]))] = True
+        rest = [w.real for i, w in enumerate(ref) if not used[i]]
+        if rest and got and min(z.real for z in got) < max(rest) - tol:
             return False, 'not the largest eigenvalues'
     if not (np.allclose(np.sort_complex(np.asarray(linalg.left_eigenvalues(M, nvals), dtype=complex)), np.sort_complex(np.asarray(lv, dtype=complex)))):
         return False, 'eigenvalues vs eigenvectors'
